@@ -294,7 +294,14 @@ def mps_tree(r, big=False):
             bounds.append(dict(t=t, col=c, val=num()))       # second definition of the same side: the first one wins
         if t == "LI" and bounds[-1]["val"] and lit_value("".join(bounds[-1]["val"])) > 0 and r.random() < .5:
             bounds[-1]["val"] = chars("-" + "".join(bounds[-1]["val"]).lstrip("-"))
-    return dict(name="GENMPS", objsense=r.choice(["", "MAX", "MIN", "MAXIMIZE", "MINIMIZE"]), objrow=objrow, nrows=extra_n, rows=rows, cols=entries,
+    # OBJNAME section: names the N row that is the objective (otherwise the first N row of the ROWS section is)
+    objname = ""
+    k = r.random()
+    if k < .15:
+        objname = objrow
+    elif k < .3 and extra_n:
+        objname = extra_n[0]
+    return dict(name="GENMPS", objsense=r.choice(["", "MAX", "MIN", "MAXIMIZE", "MINIMIZE"]), objname=objname, objrow=objrow, nrows=extra_n, rows=rows, cols=entries,
                 rhs=rhs, ranges=ranges, bounds=bounds)
 
 
@@ -306,6 +313,8 @@ def render_mps(tree, r):
     out.append("NAME" + sp() + tree["name"] + "\n")
     if tree["objsense"]:
         out.append("OBJSENSE\n" + sp() + (tree["objsense"] if r.random() < .5 else (tree["objsense"].lower() if r.random() < .5 else tree["objsense"].capitalize())) + "\n")
+    if tree.get("objname"):
+        out.append("OBJNAME\n" + sp() + tree["objname"] + "\n")
     out.append("ROWS\n")
     out.append(sp() + "N" + sp() + tree["objrow"] + "\n")
     for rw in tree["rows"]:
@@ -594,7 +603,7 @@ def mps_tree_roundtrippable(tree):
     for c in tree["cols"]:
         acc = {}
         for e in c["ent"]:
-            if e["row"] in real or e["row"] == tree["objrow"]:
+            if e["row"] in real or e["row"] == (tree.get("objname") or tree["objrow"]):
                 acc[e["row"]] = acc.get(e["row"], 0) + lit_value("".join(e["val"]))
         if not any(v != 0 for v in acc.values()):
             return False
